@@ -474,7 +474,7 @@ def histogram(case, r):
     outs = r["conc"].get("outcomes") or []
     for ti, th in enumerate(case["threads"]):
         for oi, o in enumerate(th):
-            res = outs[ti][oi] if ti < len(outs) and oi < len(outs[ti]) else "?"
+            res = outs[ti][oi] if ti < len(outs) and outs[ti] is not None and oi < len(outs[ti]) else "?"
             ks.append("op=%s:%s" % (o["op"], res))
     return ks
 
